@@ -1483,7 +1483,9 @@ def _const(self, text, ty_hint=None):
     if v is not None:
         return v
     # named / promoted constant with a body in the dump
-    if re.fullmatch(r'[\w:]+(?:::promoted\[\d+\])?', t):
+    tn = re.sub(r'::<[^<>]*(?:<[^<>]*>[^<>]*)*>', '', t)      # generic instantiation of the owner: f::<W>::promoted[3]
+    if re.fullmatch(r'[\w:]+(?:::promoted\[\d+\])?', tn):
+        t = tn
         c = self.ix.find_const(t)
         if c is not None:
             key = ('const', t)
@@ -1495,7 +1497,11 @@ def _const(self, text, ty_hint=None):
                 else:
                     fn = M.parse_function(body)
                     cmem = {}
-                    r = self.call_fn(fn, [], True, cmem)
+                    outer = self._cur_mem           # evaluating the body re-targets _cur_mem
+                    try:
+                        r = self.call_fn(fn, [], True, cmem)
+                    finally:
+                        self._cur_mem = outer
                     if r is DIVERGE:
                         raise Unsupported('constant %s did not evaluate' % t)
                     self._const_cache[key] = (r[0], cmem)
@@ -1530,6 +1536,9 @@ def _const_adt(self, t):
         args = [a.split(': ', 1)[1] for a in M.split_top(inner)] if inner else []
     segs = M.split_top(head.replace('::', '\x00'), '\x00')
     segs = [s for s in segs if s and not s.startswith('<')]
+    if len(segs) == 1 and t.endswith(')') and segs[0][:1].isupper() and args:
+        # tuple-struct constant:  Name(const args)
+        return Adt(segs[0], {k: self.const(a.strip()[6:] if a.strip().startswith('const ') else a.strip()) for k, a in enumerate(args)}, None)
     if len(segs) < 2:
         return None
     variant = segs[-1]
